@@ -461,8 +461,8 @@ static void rec_for(const Cls &c, const Params &P, bool canon, const std::string
 		case S_EOTP: h = P.g; break;
 		default: break;
 		}
-		// sign test `mpz_sgn(q) <= 0 -> false` (fix 7223137): every class of the family except the commitment scheme
-		bool sign_test = c.derive_k || c.shape == S_TRAP;
+		// sign test `mpz_sgn(q) <= 0 -> false`: every class of the family (fixes 7223137 and, for the commitment scheme, 07cfbe5)
+		bool sign_test = true;
 		Rec("cg_gens").t(c.name).u(P.F).u(P.G).d(sign_test).d(c.derive_k).d(cn).z(P.p).z(P.q).z(P.k).z(h).t(zl(gs)).t(tab_tok(tab)).t(verdict);
 	}
 }
